@@ -18,6 +18,7 @@ RULE = ("universe of 14 simultaneous registrations for one field: field serializ
         "returns the very object; no registration -> built-in rendering. quick samples subsets, thorough enumerates all "
         "2^11 mixin subsets and 2^14 codec subsets for one strategy style. distinct_nontrivial = distinct (entry point, "
         "type flavour, enabled subset, style vector) tuples.")
+RULE += " Additions: parsing-engine names (ciso8601 / pendulum) as a registration style at every level, decided with a month-only input the built-in parser refuses."
 ASSUMPTIONS = ["precedence as stated by the property: field option > field strategy > (key specificity, then call dialect > "
                "Config.dialect > Config.serialization_strategy > codec/format dialect) > built-in"]
 BUDGET_S = {"quick": 150, "thorough": 1500}
